@@ -38,7 +38,7 @@ ANN = {"_typing.Tuple[bytes, bytes]": "BB", "__int_param__": "I", "bytes": "B", 
        "_typing.Optional[_typing.Union[bytes, str]]": "OSB", "_typing.Optional[bytes]": "OB",
        "_typing.Optional[int]": "ON", "int": "N", "_typing.Optional[PaddingType]": "OPT",
        "EncryptionType": "ET", "str": "S"}
-LEAN_TY = {"BB": "Bytes × Bytes", "U8": "UInt8", "B": "Bytes", "S": "PyStr", "SB": "StrOrBytes", "OSB": "Option StrOrBytes", "OB": "Option Bytes",
+LEAN_TY = {"BOOL": "Bool", "BB": "Bytes × Bytes", "U8": "UInt8", "B": "Bytes", "S": "PyStr", "SB": "StrOrBytes", "OSB": "Option StrOrBytes", "OB": "Option Bytes",
            "ON": "Option Nat", "N": "Nat", "OPT": "Option PaddingType", "PT": "PaddingType", "ET": "EncryptionType",
            "OS": "Option PyStr", "I": "Int"}
 # hand-modelled callees: name -> (lean, arg kinds, result kind, monadic)
@@ -103,6 +103,8 @@ class Fn:
         if isinstance(e, ast.Name):
             if e.id not in self.types:
                 raise Unsupported(f"unknown name {e.id}")
+            if self.types[e.id] == "BOOL":               # a local holding the value of a condition
+                return f"({v(e.id)} = true)", "P"
             return v(e.id), self.types[e.id]
         if isinstance(e, ast.Constant):
             if isinstance(e.value, bytes):
@@ -501,7 +503,15 @@ class Fn:
                     self.ctx_new(tg.id, st.value, out, ind)
                     i += 1; continue
                 if isinstance(tg, ast.Name):
+                    if isinstance(st.value, ast.Constant) and isinstance(st.value.value, bool):
+                        out.append(f"{ind}let {v(tg.id)} : Bool := {'true' if st.value.value else 'false'}")
+                        self.types[tg.id] = "BOOL"; self.shared.discard(tg.id)
+                        i += 1; continue
                     t, k = self.expr(st.value, out, ind)
+                    if k == "P":                             # a flag: the value of a condition kept in a local
+                        out.append(f"{ind}let {v(tg.id)} : Bool := decide {t}")
+                        self.types[tg.id] = "BOOL"; self.shared.discard(tg.id)
+                        i += 1; continue
                     out.append(f"{ind}let {v(tg.id)} : {LEAN_TY[k]} := {t}")
                     self.types[tg.id] = k
                     if isinstance(st.value, ast.Name) and st.value.id in self.shared:
